@@ -1100,24 +1100,38 @@ def subst_script(script, sigma, arrays=None):
 
 def unroll_script(script):
     """textual unrolling of C06 at AST level: every loop is replaced by its body once per value,
-    with the loop variable replaced by a literal of the declared type"""
+    with the loop variable replaced by a literal denoting the value converted to the declared type"""
     out = dict(script)
     items = []
+    env = {}
     for it in script["items"]:
+        if it[0] == "var":
+            try:
+                env[it[2]] = CAST[it[1]](py_eval(it[3][1], env)) if it[3][0] == "expr" else it[3][1]
+            except (OutOfDomain, KeyError, TypeError):
+                pass
+        elif it[0] == "arr":
+            try:
+                flat = [CAST[it[1]](py_eval(e, env)) for row in it[4] for e in row]
+                env[it[2]] = (it[1], len(it[4]), len(it[4][0]), flat)
+            except (OutOfDomain, KeyError, TypeError):
+                pass
         if it[0] != "loop":
             items.append(it)
             continue
         _, ty, x, header, body = it
         if header[0] == "range":
-            vals = [("i", v) for v in range(header[1], header[2], header[3] if header[3] is not None else 1)]
+            vals = list(range(header[1], header[2], header[3] if header[3] is not None else 1))
         else:
-            vals = [("v", v) for v in header[2]]
-        for kind, v in vals:
-            if kind == "i":
-                lit = {"int": ("int", str(v)), "float": ("float", repr(float(v)))}[ty]
-                val_lit = ("expr", lit)
+            vals = [py_eval(v[1], env) if v[0] == "expr" else v[1] for v in header[2]]
+        for v in vals:
+            cv = CAST[ty](v)
+            if ty in ("int", "float", "complex"):
+                val_lit = ("expr", literal_of(cv))
+            elif ty == "str":
+                val_lit = ("str", cv)
             else:
-                val_lit = v          # keep the written value; conversion is the identity inside the domain
+                val_lit = ("bool", cv)
             for s in body:
                 items.append(replace_var_stmt(s, x, val_lit))
     out["items"] = items
@@ -1183,7 +1197,7 @@ def gen_template(rng, cfg=None):
 
     def symval(depth=2, sub=None):
         ls = sub or rng.sample(leaves, rng.randrange(1, min(3, len(leaves)) + 1))
-        e = gen_symexpr(rng, ls, depth, scope)
+        e = gen_symexpr(rng, ls, depth, None)
         used.update(n.strip("{}") for n in expr_symbols(e))
         return ("expr", e)
 
@@ -1201,7 +1215,7 @@ def gen_template(rng, cfg=None):
             items[i] = ("stmt", op, args, lb, modes, rb)
     # parameters in loop bodies (loops that execute at least once)
     for i, it in enumerate(items):
-        if it[0] == "loop" and rng.random() < 0.7:
+        if it[0] == "loop" and rng.random() < 0.7 and loop_count(it[3]) >= 1:
             _, ty, x, header, body = it
             nb = []
             for s in body:
@@ -1214,13 +1228,15 @@ def gen_template(rng, cfg=None):
     # scalar initialiser holding a parameter expression, then used as an argument
     if rng.random() < 0.5:
         vn = scope.fresh(rng)
-        extra.append(("var", rng.choice(["float", "complex", "int"]), vn, symval()))
+        # declared type int is excluded: the cast is not re-applied at instantiation
+        # (open finding C04-declared-type-not-enforced)
+        extra.append(("var", rng.choice(["float", "complex"]), vn, symval()))
         extra.append(("stmt", rng.choice(OP_NAMES), {"pos": [("expr", ("var", vn))], "kw": []}, None,
                       [("int", str(rng.randrange(4)))], None))
     # array with bare parameters among its elements
     if rng.random() < 0.5:
         an = scope.fresh(rng)
-        ty = rng.choice(["float", "complex", "int"])
+        ty = rng.choice(["float", "complex"])
         nr, nc = rng.randrange(1, 4), rng.randrange(1, 4)
         if nr * nc == 1:
             nc = 2
@@ -1233,7 +1249,7 @@ def gen_template(rng, cfg=None):
                     used.add(p)
                     row.append(("par", p))
                 else:
-                    e, _v = gen_expr(rng, scope, ty if rng.random() < 0.7 else "int", 1)
+                    e, _v = gen_expr(rng, Scope(), ty if rng.random() < 0.7 else "int", 1)
                     row.append(e)
             rows.append(row)
         extra.append(("arr", ty, an, [nr, nc] if rng.random() < 0.5 else None, rows))
@@ -1265,6 +1281,12 @@ def gen_template(rng, cfg=None):
     script = dict(script)
     script["items"] = items
     return script, {"params": sorted(used), "array_params": arr_params}, scope
+
+
+def loop_count(header):
+    if header[0] == "range":
+        return len(range(header[1], header[2], header[3] if header[3] is not None else 1))
+    return len(header[2])
 
 
 def copy_args(a):
@@ -1306,7 +1328,9 @@ def gen_rrt_script(rng, cfg=None):
         else:
             args = {"pos": [("expr", e), ("expr", plain)], "kw": []}
         st = ("stmt", rng.choice(["Dgate", "Xgate", "Zgate", "G"]), args, None, [("int", str(rng.randrange(6)))], None)
-        at = rng.randrange(len(items) + 1)
+        # after the last declaration, so that every variable the expression uses is declared
+        last_decl = max([i for i, it in enumerate(items) if it[0] in ("var", "arr")] or [-1])
+        at = rng.randrange(last_decl + 1, len(items) + 1)
         items.insert(at, st)
         cases.append((e, kwpos))
     script = dict(script)
